@@ -10,6 +10,8 @@ def real_binary(ctx):
         ctx.violation('load-limit', 'real binary: tools/realbin.py load_limit\n', w)
     for name, w in realbin.jobserver_tokens(ninja):
         ctx.violation(name, 'real binary: tools/realbin.py jobserver_tokens\n', w)
+    for name, w in realbin.jobserver_child_interrupted(ninja):
+        ctx.violation(name, 'real binary: tools/realbin.py jobserver_child_interrupted\n', w)
     for name, w in realbin.concurrency_limits(ninja):
         ctx.violation(name, 'real binary: tools/realbin.py concurrency_limits\n', w)
     for name, w in realbin.jobserver_abort_unreaped(ninja):
